@@ -87,8 +87,15 @@ def _has(fn, kinds) -> bool:
 
 def _inlinable_def(fn: ast.FunctionDef) -> bool:
     a = fn.args
-    if a.kwarg or a.posonlyargs:
+    if a.posonlyargs:
         return False
+    if a.kwarg:
+        # `**kwargs` is supported when the callee only hands it on (`f(**kwargs)`)
+        uses = [n for n in ast.walk(fn) if isinstance(n, ast.Name) and n.id == a.kwarg.arg]
+        handed = [k.value for c in ast.walk(fn) if isinstance(c, ast.Call) for k in c.keywords if k.arg is None and isinstance(k.value, ast.Name)
+                  and k.value.id == a.kwarg.arg]
+        if len(uses) != len(handed) or any(not isinstance(u.ctx, ast.Load) for u in uses):
+            return False
     if a.vararg:
         # `*args` is supported when the callee only hands it on (`f(*args)`) and never rebinds / inspects it
         for n in ast.walk(fn):
@@ -133,7 +140,10 @@ def _bind_args(callee: ast.FunctionDef, call: ast.Call, skip_self: bool, prefix:
     params = [x.arg for x in a.args]
     if skip_self:
         params = params[1:]
-    if any(isinstance(x, ast.Starred) for x in call.args) or any(k.arg is None for k in call.keywords):
+    star_kw = [k for k in call.keywords if k.arg is None]
+    if any(isinstance(x, ast.Starred) for x in call.args):
+        return None
+    if star_kw and not (len(star_kw) == 1 and a.kwarg is not None and isinstance(star_kw[0].value, ast.Name)):
         return None
     extra: List[ast.expr] = []
     if len(call.args) > len(params):
@@ -145,6 +155,8 @@ def _bind_args(callee: ast.FunctionDef, call: ast.Call, skip_self: bool, prefix:
         bound[p] = v
     kwonly = [x.arg for x in a.kwonlyargs]
     for k in call.keywords:
+        if k.arg is None:
+            continue
         if k.arg in bound or (k.arg not in params and k.arg not in kwonly):
             return None
         bound[k.arg] = k.value
@@ -163,6 +175,11 @@ def _bind_args(callee: ast.FunctionDef, call: ast.Call, skip_self: bool, prefix:
             return None
     if a.vararg is not None:
         out.append(("*" + a.vararg.arg, extra))
+    if a.kwarg is not None:
+        if star_kw:
+            out.append((a.kwarg.arg, star_kw[0].value))     # the caller's own **mapping, handed on under the callee's name
+        else:
+            out.append((a.kwarg.arg, ast.Dict(keys=[], values=[])))
     return out
 
 
